@@ -826,6 +826,8 @@ pub fn conc_engine(seed: u64, flavour: u64) -> ConcCase {
                 (1, _) => ops.push(COp::Read { kg: kg.clone(), rel: rel.clone() }),
                 (2, 11..=14) => ops.push(COp::DropKg { kg: kg.clone() }),
                 (2, 15..=17) => ops.push(COp::CreateKg { kg: kg.clone() }),
+                // a rule registration racing with the drop / re-creation: it belongs to the graph it was addressed to
+                (2, 18) => ops.push(COp::RegisterRule { kg: kg.clone(), text: "d(X, Y) <- r(X, Y)".into() }),
                 (2, _) => ops.push(COp::Read { kg: kg.clone(), rel: rel.clone() }),
                 (_, 11..=13) => ops.push(COp::Read { kg: kg.clone(), rel: rel.clone() }),
                 (_, _) => ops.push(COp::SaveAll),
